@@ -46,7 +46,7 @@ def generate(rng):
     prim = gen_primary(rng, "p0", kinds=STOCK_KINDS + ["TapePrimary", "CIRRate", "VasicekRate"],
                        dtypes=(None, None, "float32", "float64"))
     pkind = prim["kind"]
-    steps = rng.nsteps([2, 3, 4, 5, 6, 8, 11])
+    steps = rng.nsteps([1, 2, 3, 4, 5, 6, 8, 11])
     if pkind in ("CIRRate", "VasicekRate"):
         dk = ["EuropeanOption", "LookbackOption", "EuropeanBinaryOption"]
     else:
